@@ -186,6 +186,11 @@ def _one_round_given(stream: Stream, ctx: _Ctx, n: int, rseed: int) -> None:
         ctx.executions += 1
         out = oracle(case)  # type: ignore[misc]
         ctx.res.record(case, out)
+        tv = out.metrics.get("target")
+        if tv is not None and tv == tv and abs(tv) != float("inf"):
+            import hypothesis
+
+            hypothesis.target(float(tv))
         ctx.check(case, out.failures)
 
     test()
